@@ -704,7 +704,8 @@ def judge_one(rep, case, exp, ev, res, api, kind, base, stats, samples):
     stats["by_place"][kind] = stats["by_place"].get(kind, 0) + 1
     if not best:
         stats["agreed"] += 1
-        if len(samples) < 6 and (hash(case["tyname"]) % 97 == 0 or "ops" in case and len(case["ops"]) >= 3 and hash(json.dumps(case["ops"])) % 31 == 0):
+        hh = int(vlib.stable_hash([case["tyname"], case.get("m"), case.get("ops")])[:6], 16)
+        if len(samples) < 6 and (hh % 97 == 0 or "ops" in case and len(case["ops"]) >= 3 and hh % 31 == 0):
             samples.append({"type": case["tyname"], "init": case.get("init", case.get("ops")), "abstract": json.loads(brief_json(exp)),
                             "debugger_render": vals[0].get("render", "")[:300], "api": api, "placement": kind})
         return
